@@ -2,7 +2,7 @@
    search, HilbertCurve, ZCurve): model vs implementation, and the certified
    checkers on the implementation's output.  Depends on the model and the
    generated constants only (not on the proofs). *)
-From Coupe Require Import Lib.Prelude Lib.SFloat Lib.Report Lib.Sorting Model.SfcPart Gen.SfcGen.
+From Coupe Require Import Lib.Prelude Lib.SFloat Lib.Report Lib.Sorting Model.SfcPart Model.ZGeom Gen.SfcGen.
 Open Scope nat_scope.
 
 Inductive case09 :=
@@ -12,8 +12,10 @@ Inductive case09 :=
    hilbert_indices and hilbert_splits (empty when the run returned before recording), initial ids, result *)
 | CHil (dim order k npts : N) (ws : list N) (exact : bool) (idx splits : list N) (p0 : list N) (impl : impl_res)
 (* ZCurve: dimension, order, part_count, number of points, recorded quadrant codes (one list of
-   `order` quadrants per point) and final permutation, initial ids, result *)
-| CZ (dim order k n : N) (codes : list (list N)) (perm : list N) (p0 : list N) (impl : impl_res).
+   `order` quadrants per point) and final permutation, recorded bounding box (p_min then p_max,
+   f64 bits) and rotated coordinates (D f64 bits per point), initial ids, result *)
+| CZ (dim order k n : N) (codes : list (list N)) (perm : list N) (aabb : list N) (rot : list (list N))
+     (p0 : list N) (impl : impl_res).
 
 Definition res_eqb {A} (eqb : A -> A -> bool) (r : res A) (x : A) : bool :=
   match r with Ok y => eqb y x | _ => false end.
@@ -72,7 +74,8 @@ Definition canon (codes : list (list N)) (ids : list N) : list (list N * N) :=
 Definition pair_eqb (a b : list N * N) : bool :=
   list_eqb N.eqb (fst a) (fst b) && (snd a =? snd b)%N.
 
-Definition eval_z (dim order k n : N) (codes : list (list N)) (permN : list N) (p0 : list N) (impl : impl_res) : verdict :=
+Definition eval_z (dim order k n : N) (codes : list (list N)) (permN : list N) (aabb : list N) (rot : list (list N))
+           (p0 : list N) (impl : impl_res) : verdict :=
   let nq := if (dim =? 2)%N then 4 else 8 in
   let maxo := if (dim =? 2)%N then zcurve_max_order_2d else zcurve_max_order_3d in
   let o := N.to_nat order in
@@ -86,12 +89,22 @@ Definition eval_z (dim order k n : N) (codes : list (list N)) (permN : list N) (
   let codes_ok :=
     Nat.eqb (length codes) nn
     && forallb (fun c => Nat.eqb (length c) o && forallb (fun r => (r <? N.of_nat nq)%N) c) codes in
+  (* the box arithmetic of src/geometry.rs on the recorded box and rotated coordinates *)
+  let d := N.to_nat dim in
+  let bx := box_of_bits (firstn d aabb) (skipn d aabb) in
+  let pts := map (map (fun b => f64_of_bits b)) rot in
+  let geo_corr :=
+    Nat.eqb (length aabb) (2 * d) && Nat.eqb (length rot) nn
+    && forallb (fun c => Nat.eqb (length c) d) rot
+    && list_eqb (list_eqb N.eqb) (map (geo_codes o bx) pts) codes in
   let corr :=
     match impl, model with
     | IOk p, Ok pm =>
       if Nat.eqb nn 0 then list_eqb N.eqb p pm
       else
         codes_ok
+        (* the recorded quadrants are what the modelled box arithmetic gives *)
+        && geo_corr
         (* the run's own permutation explains its ids ... *)
         && check_runs codes perm p kk
         && res_eqb (list_eqb N.eqb) (z_assign zcurve_chunk_guard perm kk p0) p
@@ -103,7 +116,13 @@ Definition eval_z (dim order k n : N) (codes : list (list N)) (permN : list N) (
     | _, _ => false
     end in
   let prop :=
-    if in_contract then match impl with IOk p => check_zparts codes p kk | _ => false end
+    if in_contract then
+      match impl with
+      | IOk p => check_zparts codes p kk
+                 (* the cell a point is sorted by must contain the point *)
+                 && (Nat.eqb nn 0 || check_cells (N.of_nat nq) bx pts codes)
+      | _ => false
+      end
     else true in
   {| corr_ok := corr; prop_ok := prop; cls := cls_of impl |}.
 
@@ -114,7 +133,7 @@ Definition eval09 (c : case09) : verdict :=
     let c2 := match bsearch_pc_idx a k with Ok i => (N.of_nat i =? pc_idx)%N | _ => false end in
     {| corr_ok := c1 && c2; prop_ok := true; cls := 10%N |}
   | CHil dim order k npts ws exact idx splits p0 impl => eval_hil dim order k npts ws exact idx splits p0 impl
-  | CZ dim order k n codes perm p0 impl => eval_z dim order k n codes perm p0 impl
+  | CZ dim order k n codes perm aabb rot p0 impl => eval_z dim order k n codes perm aabb rot p0 impl
   end.
 
 Definition run09 (cs : list case09) := report (map eval09 cs).
